@@ -137,6 +137,15 @@ SetMask(t, v) ==                                  \* ra[ra > t] = v   (possibly 
         /\ Log([op |-> "setmask", t |-> t, v |-> v, empty |-> (cells = {})])
   /\ UNCHANGED <<prev, res>>
 
+SetMaskCols(cb, t, v) ==                          \* m = ra[:, :cb] > t ; ra[m] = v : the mask has SHORTER rows than
+  /\ CanStep                                      \* the array; it addresses cells by (row, column), not by flat position
+  /\ LET cells == {kc \in UNION {{<<k, c>> : c \in 1..Len(rows[k])} : k \in 1..N} :
+                     kc[2] <= cb /\ rows[kc[1]][kc[2]] > t}
+     IN /\ rows' = SetCells(cells, LAMBDA x : v)
+        /\ ViaData(DataOf(SetCells(cells, LAMBDA x : v)))
+        /\ Log([op |-> "setmaskcols", cb |-> cb, t |-> t, v |-> v, empty |-> (cells = {})])
+  /\ UNCHANGED <<prev, res>>
+
 SetRows(ra, rb, v, asRA) ==                       \* ra[ra:rb] = rows of the same lengths (list of arrays or RaggedArray)
   /\ CanStep
   /\ LET sel == RowSel(ra, rb, None)
@@ -212,6 +221,7 @@ Step ==
   \/ \E a \in Bounds, b \in Bounds, c \in 0..(MaxLen - 1), v \in Fresh : SetCol(a, b, c, v)
   \/ \E r1 \in 0..MaxRows, c1 \in 0..(MaxLen - 1), r2 \in 0..MaxRows, c2 \in 0..(MaxLen - 1), v \in Fresh : SetPairs(r1, c1, r2, c2, v)
   \/ \E t \in {0, 2, 100}, v \in Fresh : SetMask(t, v)
+  \/ \E cb \in 1..(MaxLen - 1), t \in {0, 2}, v \in Fresh : SetMaskCols(cb, t, v)
   \/ \E a \in Bounds, b \in Bounds, v \in Fresh, f \in BOOLEAN : SetRows(a, b, v, f)
   \/ \E l1 \in 1..MaxLen, l2 \in 0..MaxLen, v \in Fresh, f \in BOOLEAN : AppendRows(l1, l2, v, f)
   \/ \E o \in Ops, kk \in {1, 2} : BinScalar(o, kk)
